@@ -245,12 +245,12 @@ Proof.
   - destruct (q_end q) eqn:Ee; try discriminate;
       destruct (step_ms (q_step q)) as [ms|]; try discriminate;
       destruct (ms <=? 0) eqn:Em; try discriminate; apply Z.leb_gt in Em;
-      destruct (q_shape q) as [sh0|]; try discriminate; eapply Hplan; eauto; lia.
+      destruct (q_shape q) as [sh0|]; try discriminate; destruct (q_boot_fail q); try discriminate; eapply Hplan; eauto; lia.
   - destruct (negb (is_num (q_start q)) || negb (is_num (q_end q))); [discriminate|].
     destruct (step_ms (q_step q)) as [ms|]; try discriminate.
     destruct (ms <=? 0) eqn:Em; try discriminate. apply Z.leb_gt in Em.
     destruct (num_of (q_end q) <? num_of (q_start q)) eqn:Er; try discriminate. apply Z.ltb_ge in Er.
-    destruct (q_shape q) as [sh0|]; try discriminate. eapply Hplan; eauto.
+    destruct (q_shape q) as [sh0|]; try discriminate. destruct (q_boot_fail q); try discriminate. eapply Hplan; eauto.
 Qed.
 
 (* ------------------------------------------------------------------ instances of the generic theorems *)
@@ -396,7 +396,7 @@ Proof. repeat (apply Forall_cons; [auto using parser_nofatal, limit_nofatal, opt
 Definition typical_rows : list row :=
   map (fun i => row_at 1700000040 (1 + i / 100) (i mod 100 * 3) 1 2 ROk) (map Z.of_nat (seq 0 250)).
 Definition typical_request (sh : shape) : request :=
-  mkReq false true (Some sh) 60 (PNum 1700000040) (PNum 1700000340) (PNum 15000) (PNum 100) typical_rows (-1) false.
+  mkReq false true (Some sh) 60 (PNum 1700000040) (PNum 1700000340) (PNum 15000) (PNum 100) typical_rows (-1) false false.
 Example typical_requests_answered :
   map (fun sh => model_outcome (typical_request sh)) [ShLog; ShLogJson; ShRate; ShAggJson] = [O2xx; O2xx; O2xx; O2xx].
 Proof. vm_compute. reflexivity. Qed.
